@@ -45,9 +45,18 @@ type c17Reader struct {
 	script      []int
 	si          int
 	eofWithData bool
+	failAt      int // > 0: Read fails with an error once this many bytes were delivered
 }
 
+var errC17Read = fmt.Errorf("c17: injected read error")
+
 func (r *c17Reader) Read(p []byte) (int, error) {
+	if r.failAt > 0 && r.pos >= r.failAt {
+		return 0, errC17Read
+	}
+	if r.failAt > 0 && len(p) > r.failAt-r.pos {
+		p = p[:r.failAt-r.pos]
+	}
 	if r.pos >= len(r.data) {
 		return 0, io.EOF
 	}
@@ -384,6 +393,8 @@ type c17BigFile struct {
 	script []int
 	eofwd  bool
 	desc   string
+	failAt int // > 0: the reader fails after this many bytes; the file is not reported to Coq,
+	// it only leaves the worker's chunker / chunk state in the middle of a file
 }
 
 func c17BigCase(c *vctx, kind string, pol uint64, files []c17BigFile) error {
@@ -409,8 +420,16 @@ func c17BigCase(c *vctx, kind string, pol uint64, files []c17BigFile) error {
 					panicked = fmt.Sprint(r)
 				}
 			}()
-			node, err = fsv.SaveAndWait(wctx, fmt.Sprintf("f%d", i), &c17File{c17Reader: c17Reader{data: f.data, script: f.script, eofWithData: f.eofwd}, name: fmt.Sprintf("f%d", i)})
+			node, err = fsv.SaveAndWait(wctx, fmt.Sprintf("f%d", i), &c17File{c17Reader: c17Reader{data: f.data, script: f.script, eofWithData: f.eofwd, failAt: f.failAt}, name: fmt.Sprintf("f%d", i)})
 		}()
+		if f.failAt > 0 {
+			// expected to fail; what matters is the next file of this worker
+			hum = append(hum, fmt.Sprintf("%s n=%d read-error@%d -> err=%v", f.desc, len(f.data), f.failAt, err != nil))
+			if err == nil || panicked != "" {
+				return fmt.Errorf("C17: file with injected read error did not fail cleanly (err=%v panic=%q)", err, panicked)
+			}
+			continue
+		}
 		up.mu.Lock()
 		chunks, late := up.chunks, up.late
 		up.mu.Unlock()
@@ -665,6 +684,24 @@ func engineC17(c *vctx) error {
 		}
 		if err := c17BigCase(c, "big-sequence", polv, seq); err != nil {
 			return err
+		}
+		// a file that ends with a read error (mid chunk, mid buffer, after a cut) followed by ordinary files
+		for _, fa := range []int{100, MinS / 2, B + 7, MinS + B/2, 2*MinS + 17} {
+			bad := mk("failing-zero", make([]byte, 3*MinS))
+			bad.failAt = fa
+			if fa%2 == 1 {
+				bad = mk("failing-const", bytes.Repeat([]byte{base}, 3*MinS))
+				bad.failAt = fa
+			}
+			sq := []c17BigFile{
+				mk("const", bytes.Repeat([]byte{base}, MinS/4)),
+				bad,
+				mk("zero", make([]byte, 2*MinS+5)),
+				mk("planted", c17Planted(2*MinS, base, w, []int{MinS + 10})),
+			}
+			if err := c17BigCase(c, "big-after-read-error", polv, sq); err != nil {
+				return err
+			}
 		}
 		// random data and mixed data
 		nr := c.n(2, 6)
